@@ -51,6 +51,19 @@ META = {
         assumptions=COMMON_ASSUME + ["step granularity: the services are quiescent between steps; finer-grained schedules are covered by the race pass of C01"],
         deadline_quick=900, deadline_thorough=3400,
     ),
+    "C01": dict(
+        rule="all 24 registry services behind the real server.New+Run (service + TCP echo port per server): protocol seeds (well-formed messages from the C04 grammars plus degenerate variants: missing terminators, length fields off by one / negative / huge, unknown verbs, TLS upgrade followed by garbage, RFB pixel-format changes, ADB/BER/IPP/SNMP/DNS malformations); every seed alone, lock-step and as 7-byte dribble; all ordered seed pairs (thorough: triples of short seeds); every truncation point of every seed followed by close; every byte position of every seed (<=160 bytes) set to 00/ff/80/+1/-1; all 1-byte strings and all 2-byte strings over a 16-value boundary alphabet (thorough: all 65,536); nesting ladders 10/1e3/1e5 (thorough 3e6) for redis arrays, BER (definite and indefinite), LDAP filters, JSON, XML; two concurrent sessions x (dial, seed, close) under five step orders for all seed pairs; ssh-simulator/ssh-auth through a real x/crypto/ssh client: every channel request type x 18 raw payloads (lengths 0..9, inconsistent length prefixes), channel opens with short extra data. Oracle: the worker process survives (a dead worker is replayed 3x alone and bisected to the scenario by trace marks), each step reaches quiescence within 8 s CPU / 512 MiB heap growth, a fresh echo connection is served after each scenario group. Distinct = (service, scenario group) outcomes.",
+        bounds_quick="seed pairs; 2-byte raw over 16-value alphabet; ladders to 1e5",
+        bounds_thorough="seed triples (short seeds); all 2-byte raw strings; ladders to 3e6",
+        assumptions=COMMON_ASSUME + ["memory growth is judged by a budget per step, not proved absent", "FTP data-connection commands (PASV/EPSV/PORT) block in the kernel and are exercised by C09's real-socket part, not in the bubble", "fine-grained races between handler goroutines are covered by the free-running race pass, not by step-granularity interleavings"],
+        deadline_quick=900, deadline_thorough=3400,
+    ),
+    "C10": dict(
+        rule="tftp, memcached, snmp, counterstrike behind the real server.New+Run datagram dispatcher in a bubble (fake clock frozen, so the token bucket cannot refill): all request sequences of length 5 (thorough 6) over an 8-token alphabet per service (reply-drawing requests, multi-command memcached datagrams, malformed ones), each from a fresh source IP with the source port varying per datagram; bursts of 7/8/50/200 of every token; all interleavings of bursts from 2 IPs (6+6, 3+7) and 3 IPs (5+5+2; thorough 4+4+4). Oracle: responses captured by the datagram reply function grouped by destination IP: <=4 per source IP, none to an IP that did not send, and each IP's response list in a mixed history equals its list when it is the only sender (differential). Distinct = (service, responses, leading tokens) outcomes.",
+        bounds_quick="sequence length 5 over 8 tokens; mixes 6+6, 3+7, 5+5+2",
+        bounds_thorough="sequence length 6 over 8 tokens; plus 4+4+4",
+        assumptions=COMMON_ASSUME + ["the limiter interval (10 min) is not crossed: the fake clock stands still within a history"],
+    ),
 }
 
 NOT_APPLICABLE = {}
